@@ -43,6 +43,7 @@ def _explore(spec):
             fn, node, obs, outcomes, stats = eng.verify(c)
         except Unsupported as e:
             out["unsupported"] = str(e)
+            out["target"] = c.target
             return out
         out["target"] = c.target
         out["where"] = f"{os.path.relpath(fn.__code__.co_filename, REPO)}:{fn.__code__.co_firstlineno}"
